@@ -122,9 +122,10 @@ FPow(t, a, b) ==
          ELSE LET n == sh[2] IN
               IF n >= 0 THEN PowN(t, a, n)
               ELSE IF a[2] = 0 THEN Err("DIV0")
-              ELSE LET q == PowN(t, a, 0 - n) IN
-                   IF q[1] \in {"ERR", "OOM"} THEN q
-                   ELSE IF q[2] = 1 \/ q[2] = -1 THEN MkF(t, q[2], 0 - q[3]) ELSE OOM
+              \* the reciprocal is dyadic only for a power of two; computed directly (the positive power may
+              \* overflow where the reciprocal merely becomes tiny: MkF puts very small exponents out of model)
+              ELSE IF a[2] # 1 /\ a[2] # -1 THEN OOM
+              ELSE MkF(t, IF a[2] = 1 \/ n % 2 = 0 THEN 1 ELSE -1, 0 - (a[3] * (0 - n)))
 
 \* sign of a - b for floats: -1, 0, 1 (2 = out of model)
 FCmp(a, b) ==
